@@ -244,7 +244,6 @@ pub fn spec(text: &str) -> Spec {
 
 #[derive(Clone, Copy, PartialEq, Eq, Debug)]
 pub enum Enc {
-    Utf8,
     Utf8Bom,
     Utf16Le,
     Utf16Be,
@@ -252,7 +251,6 @@ pub enum Enc {
 
 fn encode(text: &str, enc: Enc) -> Vec<u8> {
     match enc {
-        Enc::Utf8 => text.as_bytes().to_vec(),
         Enc::Utf8Bom => {
             let mut v = vec![0xEF, 0xBB, 0xBF];
             v.extend_from_slice(text.as_bytes());
